@@ -102,7 +102,9 @@ deriving DecidableEq, Repr
 
 /-- Outcome of one `Compact`: calls = list dst level, list src level, open per source file
     (skipped when a local copy exists), write.  `readsOk` = every source stream was delivered
-    completely (resumable readers absorbed the read faults).  The compaction pipe is closed
+    completely: no resumable reader spent more than its retry budget, where a retry is spent by every
+    broken stream (error / premature EOF) AND by every failed reopen attempt (C10 `reader_bounded`); the
+    reopen calls happen while the write call is running and are not part of this call numbering.  The compaction pipe is closed
     **with** the compactor's error, so a failed read makes the write fail; a file is left on
     the remote only if the write call took effect. Returns (result, file written?, calls used). -/
 def compactOutcome (φ : Assign) (k : Nat) (nSrc : Nat) (localCopies : Bool) (readsOk : Bool) : CRes × Bool × Nat :=
